@@ -76,4 +76,5 @@ var VerifEntries = map[string]func(){
 	"VerifC14_Fees":          VerifC14_Fees,
 	"VerifC09_ConsensusFees": VerifC09_ConsensusFees,
 	"VerifC09_Blocks":        VerifC09_Blocks,
+	"VerifC17_Jobs":          VerifC17_Jobs,
 }
